@@ -12,6 +12,7 @@ mod ext;
 mod eqord;
 mod robust;
 mod sat;
+mod rawpkh;
 mod desc;
 mod psbt;
 mod policy;
@@ -41,6 +42,7 @@ fn main() {
     match args[1].as_str() {
         "tables" => tables::run(&args[2..]),
         "sat" => sat::run(&args[2..]),
+        "rawpkh" => rawpkh::run(&args[2..]),
         "codec" => codec::run(&args[2..]),
         "interp" => interp::run(&args[2..]),
         "compile" => compile::run(&args[2..]),
